@@ -483,8 +483,9 @@ Definition astep (a : astate) (e : event) : option astate :=
           else None
       | _ => None end
   | EPeerRecv id =>
-      (* only a request that was issued, at most once, and never one whose Send reported an error *)
-      if id_used a id && negb (memN id (recvd a)) && negb (memN id (errored a))
+      (* only a request that was issued, and never one whose Send reported an error (a request may be written twice:
+         the sender re-queues a message whose write failed; that is C11's subject) *)
+      if id_used a id && negb (memN id (errored a))
       then Some (mkast (acs a) (started a) (returned a) (id :: recvd a) (sends a) (errored a))
       else None
   | EPeerSend id pay =>
